@@ -148,7 +148,7 @@ def evaluate(kind, case, acc):
         raise
     # S4a (known finding of C06) makes contains() of such a range go through a lossy text
     for o in [result] + [r for _, _, r in steps]:
-        k = _known_obj(o)
+        k = _known_obj(o) if harness.KNOWN_ENABLED else None
         if k:
             acc.excluded_known[k] += 1
             return
